@@ -60,3 +60,9 @@ func (m *unExportedVarMocker) Set(value interface{}) {
 	m.defaultVarMocker.doSet(value)
 	logger.Consolefc(logger.DebugLevel, "mocker [%s] apply.", logger.Caller(5), m.String())
 }
+
+// Apply 变量取值回调函数, 只会执行一次; 返回值的类型必须和变量原值的类型一致
+// 注意: Apply 会覆盖之前设定 Set 的值
+func (m *unExportedVarMocker) Apply(callback interface{}) {
+	m.Set(callbackValue(callback))
+}
